@@ -23,6 +23,9 @@ type c15Case struct {
 	JSON   bool   `json:"json"`
 	HTTPS  bool   `json:"https"`
 	Mount  string `json:"mount"`
+	// Redir2, when set, is a second redir value sent in the same request; First says whether it precedes Redir.
+	Redir2 string `json:"redir2,omitempty"`
+	First  bool   `json:"redir2_first,omitempty"`
 }
 
 var c15Flows = []string{"login", "otplogin", "totp", "sms", "oauth2"}
@@ -41,11 +44,25 @@ func c15Run(c c15Case) *Violation {
 	defer w.Close()
 	w.RegisterCode("code-u1", harness.OAuthIdentity{UID: "u1", Email: "u1@prov.io"})
 	q := harness.Req{Method: "POST"}
+	multi := func() []string {
+		if c.Redir2 == "" {
+			return []string{c.Redir}
+		}
+		if c.First {
+			return []string{c.Redir2, c.Redir}
+		}
+		return []string{c.Redir, c.Redir2}
+	}
 	deliver := func(q *harness.Req) {
 		if c.InBody && !c.JSON && q.Method == "POST" {
-			q.Form["redir"] = c.Redir
+			// hostile value in the body, the other (if any) in the query, or both in the body
+			q.FormMulti = url.Values{}
+			for k, v := range q.Form {
+				q.FormMulti.Set(k, v)
+			}
+			q.FormMulti["redir"] = multi()
 		} else {
-			q.Query = url.Values{"redir": {c.Redir}}
+			q.Query = url.Values{"redir": multi()}
 		}
 	}
 	page := ""
@@ -66,7 +83,7 @@ func c15Run(c c15Case) *Violation {
 		q.Path, q.Form = w.Path("/2fa/sms/validate"), map[string]string{"code": r.SessAfter["sms_secret"]}
 		deliver(&q)
 	case "oauth2":
-		r := w.Do(harness.Req{Method: "GET", Path: w.Path("/oauth2/goog"), Query: url.Values{"redir": {c.Redir}}})
+		r := w.Do(harness.Req{Method: "GET", Path: w.Path("/oauth2/goog"), Query: url.Values{"redir": multi()}})
 		q = harness.Req{Method: "GET", Path: w.Path("/oauth2/callback/goog"), Query: url.Values{"state": {r.SessAfter["oauth2_state"]}, "code": {"code-u1"}}}
 	}
 	page = q.Path
@@ -87,6 +104,9 @@ func c15Run(c c15Case) *Violation {
 		ok, cls := sameSite(loc, scheme, "site.example")
 		if ok {
 			return nil
+		}
+		if c.Redir2 != "" {
+			cls += "+repeated"
 		}
 		return violation("C15", "offsite:"+where+":"+flowGroup(c.Flow)+":class="+cls, "flow %s (%s): redir=%q produced %s %q, which a browser on %s://site.example resolves to another origin (%s)", c.Flow, modeName(c), c.Redir, where, loc, scheme, cls)
 	}
@@ -146,6 +166,11 @@ func c15GenRedir(t *rapid.T) string {
 func c15Gen(t *rapid.T) c15Case {
 	c := c15Case{Redir: c15GenRedir(t), Flow: pick(t, "flow", c15Flows...), JSON: chance(t, "json", 40), HTTPS: chance(t, "https", 50), Mount: pick(t, "mount", "/auth", "/auth", "")}
 	c.InBody = !c.JSON && chance(t, "inbody", 40)
+	if chance(t, "repeated", 30) {
+		// the parameter repeated: a benign value beside the hostile one, in either order
+		c.Redir2 = pick(t, "redir2", "/dashboard", "/x", "/a/b?c=1", "//evil.com", "https://evil.com/")
+		c.First = rapid.Bool().Draw(t, "redir2first")
+	}
 	return c
 }
 
@@ -155,6 +180,9 @@ func c15Class(c c15Case) (bool, string) {
 		scheme = "https"
 	}
 	ok, cls := sameSite(c.Redir, scheme, "site.example")
+	if c.Redir2 != "" {
+		cls += "+repeated"
+	}
 	hostile := !ok || strings.ContainsAny(c.Redir, "\\\t\n\r\x00\x01") || strings.Contains(c.Redir, "//") || strings.Contains(c.Redir, ":")
 	return hostile, cls
 }
